@@ -63,8 +63,11 @@ OpsStd == {"New", "CloneRoot", "CloneStored", "DropRoot", "Store", "Take", "Drop
 OpsStdM == OpsStd \cup {"Misc"}
 OpsStdQ == {"New", "CloneRoot", "DropRoot", "Store", "DropStored", "Downgrade", "Upgrade", "WeakDrop", "StoreWeak",
             "TryUnwrap", "GetMut", "MakeMut", "IntoRaw", "FromRaw", "DecStrong", "DropDetached"}
+OpsGraph == {"New", "Edge", "DropRoot"}
+CapsG == [strong |-> 99, stored |-> 1, rec |-> 1, weak |-> 0, storedW |-> 0, over |-> FALSE, elide |-> FALSE, scripted |-> 1]
 OpsBuild == {"New", "CloneRoot", "DropRoot", "AdoptStore", "TakeUnadopt", "Store"}
 CapsB == [strong |-> 2, stored |-> 1, rec |-> 1, weak |-> 0, storedW |-> 0, over |-> FALSE, elide |-> FALSE, scripted |-> 1]
+OpsWeak3 == {"New", "CloneRoot", "DropRoot", "AdoptStore", "Downgrade", "StoreWeak", "WeakDrop", "Upgrade"}
 OpsDtorQ == {"New", "CloneRoot", "DropRoot", "AdoptStore", "Downgrade", "StoreWeak"}
 OpsCoreQ == {"New", "CloneRoot", "DropRoot", "Store", "Take", "DropStored", "AdoptStore", "TakeUnadopt", "Adopt"}
 OpsConsumeQ == {"New", "CloneRoot", "DropRoot", "AdoptStore", "Downgrade", "WeakDrop",
